@@ -89,6 +89,19 @@ def replay_native(meta):
     if False: common.native_build([common.harness_path(HARNESS)], 'C08t_native', extra=['-I' + common.REPO], defs=['VERIF_NATIVE'], libs=['-lexpat'])
     n, nread, fmt, flags = meta['n'], meta['nread'], meta['fmt'], meta['flags']
     box = [3.0, 0, 0, 0, 4.0, 0, 0, 0, 5.0] if meta['boxkind'] == 'orthorhombic' else [3.0, 0.5, 0.25, 0, 4.0, 0.75, 0, 0, 5.0]
+    mdl = meta.get('model') or {}
+    if meta['boxkind'] != 'orthorhombic' and any(('L%d' % i) in mdl for i in (1, 2, 5)):
+        # the solver's own box: the signs and zero pattern of the off-diagonal elements are what a writer's "is it triclinic" test
+        # depends on; magnitudes are brought into the printable range of the format
+        def num(k, d):
+            try:
+                from fractions import Fraction as _F
+                v = float(_F(str(mdl.get(k)))) if mdl.get(k) is not None else d
+            except Exception: v = d
+            return v
+        def clamp(v, lo, hi): return 0.0 if v == 0 else (1 if v > 0 else -1) * min(max(abs(v), lo), hi)
+        box = [clamp(num('L0', 3.0), 1.0, 9.0), clamp(num('L1', 0.0), 0.125, 1.0), clamp(num('L2', 0.0), 0.125, 1.0), 0, clamp(num('L4', 4.0), 1.0, 9.0), clamp(num('L5', 0.0), 0.125, 1.0), 0, 0, clamp(num('L8', 5.0), 1.0, 9.0)]
+        box = [round(8 * v) / 8.0 for v in box]
     pos = [0.125 * (i + 1) for i in range(3 * n)]; vel = [0.25 * (i + 1) for i in range(3 * n)]; frc = [0.5 * (i + 1) for i in range(3 * n)]
     if meta.get('full'):       # values that fill the 8-character columns: -100.125 (%8.3f), 100.0625 / -10.0625 (%8.4f)
         pos = [-100.125 - i for i in range(3 * n)]; vel = [100.0625 + i if i % 2 == 0 else -10.0625 - i for i in range(3 * n)]
